@@ -448,3 +448,146 @@ def diff_state(before, after):
 def component_class(comp):
     """Coarse class of a state component, for stable finding keys."""
     return comp.split(':')[0]
+
+
+# ------------------------------------------------------------------------------------------ the environment of the PROCESS
+# A program does not choose the environment its interpreter is started in: a test runner (tox, pytest), a CI service, a
+# notebook server, a system administrator or a Python command-line switch (-O, -X dev, -W) defines variables before the first
+# import.  This is the finite alphabet of such environments used by the C20 driver (layer PENV), plus a scan of the package
+# sources for the names of the variables the package itself looks at.
+#   class 'runner'  : variables that tools define for the programs they start (read through os.environ by whoever wants to)
+#   class 'python'  : switches of the interpreter itself (they change __debug__, docstrings, default warning filters,
+#                     encodings ...): only meaningful when defined before the interpreter starts
+#   class 'system'  : locale / terminal / account variables
+# value None = the variable is removed from the environment.
+ENV_MENU = {
+    'TOX_ENV_NAME': ('runner', ['py312', 'lint', '']),
+    'TOX_WORK_DIR': ('runner', ['/tmp/c20-penv/.tox']),
+    'TOX_ENV_DIR': ('runner', ['/tmp/c20-penv/.tox/py312']),
+    'PYTEST_CURRENT_TEST': ('runner', ['tests/test_x.py::test_y (call)', '']),
+    'PYTEST_VERSION': ('runner', ['8.0.0']),
+    'PYTEST_XDIST_WORKER': ('runner', ['gw0']),
+    'CI': ('runner', ['true', '1', 'false']),
+    'GITHUB_ACTIONS': ('runner', ['true']),
+    'CONTINUOUS_INTEGRATION': ('runner', ['true']),
+    'GITLAB_CI': ('runner', ['true']),
+    'TRAVIS': ('runner', ['true']),
+    'READTHEDOCS': ('runner', ['True']),
+    'DEBUG': ('runner', ['1', '0', 'true']),
+    'TESTING': ('runner', ['1', '0']),
+    'JPY_PARENT_PID': ('runner', ['1']),
+    'VIRTUAL_ENV': ('runner', ['/venv']),
+    'CONDA_DEFAULT_ENV': ('runner', ['base']),
+    'MPLBACKEND': ('runner', ['Agg']),
+    'NO_COLOR': ('runner', ['1']),
+    'PYTHONOPTIMIZE': ('python', ['1', '2']),
+    'PYTHONDEVMODE': ('python', ['1']),
+    'PYTHONWARNINGS': ('python', ['default', None, 'error::DeprecationWarning']),
+    'PYTHONHASHSEED': ('python', ['1', '4242']),
+    'PYTHONUTF8': ('python', ['0', '1']),
+    'PYTHONIOENCODING': ('python', ['ascii', 'latin-1']),
+    'PYTHONNOUSERSITE': ('python', ['1']),
+    'PYTHONUNBUFFERED': ('python', ['1']),
+    'LANG': ('system', ['C', None, 'C.UTF-8']),
+    'LC_ALL': ('system', ['C', 'POSIX']),
+    'TZ': ('system', ['UTC', 'America/New_York']),
+    'HOME': ('system', [None, '/nonexistent']),
+    'USER': ('system', [None, 'nobody']),
+    'LOGNAME': ('system', [None]),
+    'TERM': ('system', ['dumb', None]),
+    'COLUMNS': ('system', ['20']),
+}
+# realistic combinations (what one tool defines together): the quick tier starts one interpreter per bundle, the thorough tier
+# also one per (variable, value)
+ENV_BUNDLES = {
+    'tox-run': ['TOX_ENV_NAME', 'TOX_WORK_DIR', 'TOX_ENV_DIR'],
+    'pytest-run': ['PYTEST_CURRENT_TEST', 'PYTEST_VERSION', 'PYTEST_XDIST_WORKER'],
+    'ci-service': ['CI', 'GITHUB_ACTIONS', 'CONTINUOUS_INTEGRATION', 'GITLAB_CI', 'TRAVIS', 'READTHEDOCS'],
+    'debug-flags': ['DEBUG', 'TESTING'],
+    'tools': ['JPY_PARENT_PID', 'VIRTUAL_ENV', 'CONDA_DEFAULT_ENV', 'MPLBACKEND', 'NO_COLOR'],
+    'python-optimize': ['PYTHONOPTIMIZE'],
+    'python-dev-mode': ['PYTHONDEVMODE', 'PYTHONWARNINGS'],
+    'python-misc': ['PYTHONHASHSEED', 'PYTHONNOUSERSITE', 'PYTHONUNBUFFERED'],
+    'text-encoding': ['PYTHONUTF8', 'PYTHONIOENCODING', 'LANG', 'LC_ALL'],
+    'bare-system': ['HOME', 'USER', 'LOGNAME', 'TERM', 'TZ', 'COLUMNS'],
+}
+# values tried for a variable the package itself looks at (found by the source scan / observed at run time)
+FLAG_VALUES = ['1', '', '0', 'true', 'py312']
+
+
+def env_menu_value(var, seed=0):
+    vals = ENV_MENU[var][1]
+    return vals[seed % len(vals)]
+
+
+def env_bundle(name, seed=0):
+    """-> delta {variable: value | None}.  The second value alphabet of 'python-optimize' is -OO and so on."""
+    return {v: env_menu_value(v, seed) for v in ENV_BUNDLES[name]}
+
+
+def env_label(delta):
+    return ','.join(f'{k}=<unset>' if v is None else f'{k}={v}' for k, v in sorted(delta.items())) or '<base>'
+
+
+def start_environment(inherited, delta, clean=()):
+    """The environment of a child interpreter: what this process has, without any variable of the alphabet that a tool may
+    have defined for THIS run (`clean`), plus the delta."""
+    env = {k: v for k, v in inherited.items() if k not in clean}
+    for k, v in delta.items():
+        if v is None:
+            env.pop(k, None)
+        else:
+            env[k] = v
+    return env
+
+
+_ENVNAME = re.compile(r'^[A-Z][A-Z0-9]*(_[A-Z0-9]+)+$|^[A-Z]{2,}$')
+
+
+def scan_environment_names(root):
+    """Names of the environment variables the sources under `root` look at.
+    -> (direct, indirect): direct = string literal handed to environ.get / environ[...] / getenv / 'in environ' ...;
+    indirect = any other ENV_LIKE string constant of a module that touches the environment at all (the name may travel
+    through a variable)."""
+    import ast
+
+    def is_environ(node):
+        return (isinstance(node, ast.Name) and node.id in ('environ', 'environb')) or \
+            (isinstance(node, ast.Attribute) and node.attr in ('environ', 'environb'))
+
+    def const(node):
+        return node.value if isinstance(node, ast.Constant) and isinstance(node.value, str) else None
+
+    direct, indirect = set(), set()
+    for dp_, _, files in sorted(os.walk(root)):
+        for fn in sorted(files):
+            if not fn.endswith('.py'):
+                continue
+            try:
+                with open(os.path.join(dp_, fn), encoding='utf-8') as fh:
+                    tree = ast.parse(fh.read())
+            except (SyntaxError, OSError, UnicodeDecodeError):
+                continue
+            touches, consts = False, set()
+            for node in ast.walk(tree):
+                if is_environ(node) or (isinstance(node, (ast.Name, ast.Attribute))
+                                        and getattr(node, 'id', getattr(node, 'attr', None)) in ('getenv', 'getenvb', 'putenv', 'unsetenv')):
+                    touches = True
+                if isinstance(node, ast.Constant) and isinstance(node.value, str) and _ENVNAME.match(node.value):
+                    consts.add(node.value)
+                if isinstance(node, ast.Call):
+                    f = node.func
+                    fname = f.id if isinstance(f, ast.Name) else getattr(f, 'attr', None)
+                    if node.args and const(node.args[0]) is not None:
+                        if fname in ('getenv', 'getenvb', 'putenv', 'unsetenv'):
+                            direct.add(const(node.args[0]))
+                        elif isinstance(f, ast.Attribute) and is_environ(f.value):
+                            direct.add(const(node.args[0]))
+                elif isinstance(node, ast.Subscript) and is_environ(node.value) and const(node.slice) is not None:
+                    direct.add(const(node.slice))
+                elif isinstance(node, ast.Compare) and const(node.left) is not None and \
+                        any(is_environ(c) for c in node.comparators):
+                    direct.add(const(node.left))
+            if touches:
+                indirect |= consts
+    return sorted(direct), sorted(indirect - direct)
